@@ -591,6 +591,36 @@ def r3_all_scopes(chk: Check) -> None:
                 chk.undecided("C19.R3", fn, construct, "applications are not threaded through one variable in a recognised way", fn.loc())
 
 
+def r3b_fold_over_hooks(chk: Check) -> None:
+    chk.rule("C19.R3b", "FOLD(hooks of one dispatcher): wherever a loop over `get_all_by_name(...)` rebinds a strategy (`S = hook(ctx, S)`, `S = S.filter(hook)` ...), the new value is computed from the CURRENT value of the same variable - an update that reads another variable (the enclosing function's strategy, the parameter as it came in) restarts from the beginning on every iteration, so only the last registered hook has an effect and unregistering it resurrects the one before", floor=8)
+    P = chk.project
+    n = 0
+    for fn in P.all_functions():
+        if isinstance(fn.node, ast.Lambda):
+            continue
+        for loop in (x for x in walk_body(fn.node) if isinstance(x, ast.For)):
+            if not any(isinstance(c, ast.Call) and last_attr(c) == "get_all_by_name" for c in ast.walk(loop.iter)):
+                continue
+            hookv = names_in(loop.target)
+            for a in (x for s_ in loop.body for x in ast.walk(s_) if isinstance(x, ast.Assign)):
+                if len(a.targets) != 1 or not isinstance(a.targets[0], ast.Name) or a.targets[0].id in hookv:
+                    continue
+                acc = a.targets[0].id
+                if not (hookv & names_in(a.value)):
+                    continue  # not an application of the hook
+                n += 1
+                construct = f"{fn.qualname.partition(':')[2]}: `{unparse(a, 60)}` feeds on the current value of `{acc}`"
+                reads = {x.id for x in ast.walk(a.value) if isinstance(x, ast.Name)}
+                if acc in reads:
+                    chk.ok("C19.R3b", fn, construct, "", fn.loc(a))
+                else:
+                    chk.violation("C19.R3b", fn, construct,
+                                  f"the new `{acc}` is computed from {sorted(reads - hookv)} and not from `{acc}`: every iteration starts over, the strategies returned by the earlier hooks of this dispatcher are discarded (they are still CALLED, so counting invocations shows nothing) - with two matching hooks only the last one shapes the data",
+                                  fn.loc(a))
+    if n < 8:
+        chk.undecided("C19.R3b", "<discovery>", f"sites={n}", "fewer hook-folding loops than confirmed by hand (2 functions x 4 hook kinds)")
+
+
 # --------------------------------------------------------------------------------------------- R4
 def r4_auth(chk: Check) -> None:
     chk.rule("C19.R4", "auth: each registration creates a fresh FilterSet and hands that same object to the provider and to both filter chains", floor=3)
@@ -759,4 +789,4 @@ def r6_explicit_cases_pass_hooks(chk: Check) -> None:
 
 
 def rules(tier: str) -> list:  # type: ignore[type-arg]
-    return [r1_cell, r2_hook_loops, r2b_should_skip, r3_all_scopes, r4_auth, r5_proxy_forwarding, r6_explicit_cases_pass_hooks]
+    return [r1_cell, r2_hook_loops, r2b_should_skip, r3_all_scopes, r3b_fold_over_hooks, r4_auth, r5_proxy_forwarding, r6_explicit_cases_pass_hooks]
